@@ -170,6 +170,11 @@ class Graph(object):
             self.adjacency_matrix = adjacency_matrix.copy()
         else:
             self.adjacency_matrix = adjacency_matrix
+        # A zero is a non-edge, also when a sparse matrix stores it
+        # explicitly: scipy.sparse.csgraph would read a stored zero as an edge
+        # of weight zero, so that paths, shortest paths, spanning trees and
+        # connectivity would disagree with ``edges``, ``is_edge`` etc.
+        self.adjacency_matrix.eliminate_zeros()
 
     @classmethod
     def init_from_edges(cls, edges, n_vertices, skip_checks=False):
